@@ -663,7 +663,10 @@ class Daemon(object):
         if not force:
             if hasattr(obj_or_class, "_pyroId") and obj_or_class._pyroId != "":  # check for empty string is needed for Cython
                 pyro_id = obj_or_class._pyroId
-                if pyro_id and self.objectsById.get(pyro_id) is obj_or_class:
+                registered = self.objectsById.get(pyro_id)
+                if isinstance(registered, weakref.ref):
+                    registered = registered()
+                if pyro_id and registered is obj_or_class:
                     raise errors.DaemonError("object or class already has a Pyro id")
             if objectId in self.objectsById:
                 raise errors.DaemonError("an object or class is already registered with that id")
@@ -875,7 +878,11 @@ def _pyro_obj_to_auto_proxy(obj: Any) -> Any:
     daemon = getattr(obj, "_pyroDaemon", None)
     if daemon:
         # only return a proxy if the object is a registered pyro object
-        return daemon.proxyFor(obj)
+        registered = daemon.objectsById.get(getattr(obj, "_pyroId", None))
+        if isinstance(registered, weakref.ref):
+            registered = registered()
+        if registered is obj or (inspect.isclass(registered) and isinstance(obj, registered)):
+            return daemon.proxyFor(obj)
     return obj
 
 
